@@ -145,7 +145,11 @@ func e3ResolveRestarts(cfg *e3Config, correct []int) {
 }
 
 func TestVerif_C03(t *testing.T) {
-	r := verifkit.Start("C03")
+	prop := "C03"
+	if os.Getenv("VERIF_PROP") == "C07" {
+		prop = "C07" // C07's "engine" sub-run, see (*e3Run).violate
+	}
+	r := verifkit.Start(prop)
 	if r == nil {
 		t.Skip("not started by the /verif driver")
 	}
